@@ -2742,6 +2742,14 @@ def replace_dict_assign_with_dict_literal(source: str) -> str:
     for transaction, (first, *matches) in enumerate(
         core.walk_sequence(root, *template, expand_last=True)
     ):
+        if any(
+            name.id == first.target.id
+            for m in matches
+            for part in (m.key, m.value)
+            for name in core.walk(part, ast.Name)
+        ):
+            continue  # The dict is read while it is being filled, e.g. d[k] = len(d)
+
         replacement = ast.Assign(
             targets=[first.target],
             value=ast.Dict(
